@@ -255,4 +255,76 @@ theorem generated_gate_eq_model (ti : TypeInfo) (r : RustTy) (t : RotoTy) :
     simp only [TypeInfo.resolve, iha, ihb, seq_ok]
     cases t <;> rfl
 
+/-! ### Literal defaults at every depth -/
+
+theorem defaulted_deepDefault_name (tb : Tables) (n : ResolvedName) (args : List RotoTy) :
+    defaulted tb (deepDefault tb (.name n args)) = .name n (deepDefaultList tb args) := by
+  simp [deepDefault, defaulted]
+
+theorem named_beq_deepDefault (tb : Tables) (m : Ident) (t : RotoTy) :
+    (RotoTy.named m [] == defaulted tb (deepDefault tb t)) = (RotoTy.named m [] == defaulted tb t) := by
+  cases t with
+  | name n args =>
+    cases args <;> simp [deepDefault, deepDefaultList, defaulted, BEq.beq, RotoTy.beq, RotoTy.beqList, RotoTy.named]
+  | _ => simp [deepDefault, defaulted, RotoTy.named]
+
+theorem unit_beq_deepDefault (tb : Tables) (t : RotoTy) :
+    (defaulted tb (deepDefault tb t) == RotoTy.unit) = (defaulted tb t == RotoTy.unit) := by
+  cases t <;> simp [deepDefault, defaulted, BEq.beq, RotoTy.beq, RotoTy.named]
+
+theorem ite_congr_bool {α} {b c : Bool} (h : b = c) (x y : α) :
+    (if b = true then x else y) = (if c = true then x else y) := by subst h; rfl
+
+/-- the gate's answer for a type is its answer for the type with every literal
+    type variable — at any depth — replaced by its default -/
+theorem checkRotoType_deepDefault (tb : Tables) (ti : TypeInfo) (r : RustTy) (t : RotoTy) :
+    checkRotoType tb ti r (deepDefault tb t) = checkRotoType tb ti r t := by
+  induction r generalizing t with
+  | unknown => simp [checkRotoType]
+  | leaf tid =>
+    simp only [checkRotoType, TypeInfo.resolve]
+    by_cases hu : (tid == tb.unitId) = true
+    · rw [if_pos hu, if_pos hu]
+      exact ite_congr_bool (unit_beq_deepDefault tb t) _ _
+    · rw [if_neg hu, if_neg hu]
+      cases lookupFirst tb.leafNames tid with
+      | none => rfl
+      | some m => exact ite_congr_bool (named_beq_deepDefault tb m t) _ _
+  | val tid =>
+    cases t <;> simp [checkRotoType, TypeInfo.resolve, deepDefault, defaulted, RotoTy.named]
+  | option r ih =>
+    cases t with
+    | name n args =>
+      match args with
+      | [] => simp [checkRotoType, TypeInfo.resolve, deepDefault, deepDefaultList, defaulted]
+      | [a] => simp [checkRotoType, TypeInfo.resolve, deepDefault, deepDefaultList, defaulted, ih]
+      | _ :: _ :: _ => simp [checkRotoType, TypeInfo.resolve, deepDefault, deepDefaultList, defaulted]
+    | _ => simp [checkRotoType, TypeInfo.resolve, deepDefault, defaulted, RotoTy.named]
+  | list r ih =>
+    cases t with
+    | name n args =>
+      match args with
+      | [] => simp [checkRotoType, TypeInfo.resolve, deepDefault, deepDefaultList, defaulted]
+      | [a] => simp [checkRotoType, TypeInfo.resolve, deepDefault, deepDefaultList, defaulted, ih]
+      | _ :: _ :: _ => simp [checkRotoType, TypeInfo.resolve, deepDefault, deepDefaultList, defaulted]
+    | _ => simp [checkRotoType, TypeInfo.resolve, deepDefault, defaulted, RotoTy.named]
+  | result a b iha ihb =>
+    cases t with
+    | name n args =>
+      match args with
+      | [] => simp [checkRotoType, TypeInfo.resolve, deepDefault, deepDefaultList, defaulted]
+      | [x] => simp [checkRotoType, TypeInfo.resolve, deepDefault, deepDefaultList, defaulted]
+      | [x, y] => simp [checkRotoType, TypeInfo.resolve, deepDefault, deepDefaultList, defaulted, iha, ihb]
+      | _ :: _ :: _ :: _ => simp [checkRotoType, TypeInfo.resolve, deepDefault, deepDefaultList, defaulted]
+    | _ => simp [checkRotoType, TypeInfo.resolve, deepDefault, defaulted, RotoTy.named]
+  | verdict a b iha ihb =>
+    cases t with
+    | name n args =>
+      match args with
+      | [] => simp [checkRotoType, TypeInfo.resolve, deepDefault, deepDefaultList, defaulted]
+      | [x] => simp [checkRotoType, TypeInfo.resolve, deepDefault, deepDefaultList, defaulted]
+      | [x, y] => simp [checkRotoType, TypeInfo.resolve, deepDefault, deepDefaultList, defaulted, iha, ihb]
+      | _ :: _ :: _ :: _ => simp [checkRotoType, TypeInfo.resolve, deepDefault, deepDefaultList, defaulted]
+    | _ => simp [checkRotoType, TypeInfo.resolve, deepDefault, defaulted, RotoTy.named]
+
 end RotoV.C04
